@@ -4,7 +4,7 @@ import subprocess, os
 V = os.path.dirname(os.path.dirname(os.path.abspath(__file__)))
 p = os.path.join(V, "DESIGN.md")
 s = open(p).read()
-for rnd, suf, r in (("round5", "7,8", ""), ("round6", "9,10", ""), ("round7", "9,10", "7"), ("round8", "11,12", "8"), ("round9", "11,12", "9")):
+for rnd, suf, r in (("round5", "7,8", ""), ("round6", "9,10", ""), ("round7", "9,10", "7"), ("round8", "11,12", "8"), ("round9", "11,12", "9"), ("round10", "13,14", "10")):
     b0, b1 = "<!-- %s-table-begin -->\n" % rnd, "<!-- %s-table-end -->" % rnd
     if b0 not in s:
         continue
